@@ -926,10 +926,16 @@ class FixedTupleUnmarshaller(AbstractUnmarshaller[compat.TupleT]):
             val: The input value to unmarshal.
         """
         decoded = serdes.load(val)
-        return self.origin(
+        result = self.origin(
             routine(v)
             for routine, v in zip(self.ordered_routines, serdes.itervalues(decoded))
         )
+        if len(result) != len(self.ordered_routines):
+            raise ValueError(
+                f"{val!r} does not have exactly {len(self.ordered_routines)} members "
+                f"for {self.t!r}"
+            )
+        return result
 
 
 _ST = tp.TypeVar("_ST")
